@@ -188,7 +188,7 @@ func (env *SpecEnv) eval(e *SExpr) TV {
 			switch e.Name {
 			case "$spawned", "$fcalls":
 				return TV{IntLit(0), types.Typ[types.Int]}
-			case "$quiet", "$defaultTaken", "$inWorker":
+			case "$quiet", "$defaultTaken", "$inWorker", "$failed":
 				return TV{False, types.Typ[types.Bool]}
 			}
 			env.fail(e, "unknown ghost variable")
@@ -750,7 +750,7 @@ func (env *SpecEnv) callPure(e *SExpr, pf *PureFunc) TV {
 func (env *SpecEnv) callGo(e *SExpr, fn *types.Func, recv *TV, args []TV) TV {
 	vc := env.vc
 	fi := vc.prog.ByObj[fn]
-	if spec, ok := vc.prog.Specs[funcKey(fn)]; ok && spec.Pure && spec.Trusted {
+	if spec, ok := vc.prog.Specs[funcKey(fn)]; ok && spec.Pure && len(spec.Modifies) == 0 && !spec.ModAll {
 		// trusted pure function: the same uninterpreted application that call sites use
 		sig := fn.Type().(*types.Signature)
 		var all []*Term
